@@ -168,7 +168,8 @@ type Witness struct {
 
 type workItem struct {
 	h      int
-	prefix []Decision
+	prefix []Decision // materialised when the item is taken
+	alt    *Alt
 }
 
 // ExploreOpts control a run over several harnesses.
@@ -217,7 +218,7 @@ func (p *Program) Explore(fns []*ssa.Function, cfgs []Config, opt ExploreOpts) (
 				mu.Unlock()
 				return
 			}
-			defer w.Close()
+			defer func() { w.Close() }()
 			w.i.Debug, w.i.Trace = opt.Debug, opt.Trace
 			if opt.Trace {
 				w.i.ForkSites = map[string]int{}
@@ -257,6 +258,32 @@ func (p *Program) Explore(fns []*ssa.Function, cfgs []Config, opt ExploreOpts) (
 				active++
 				mu.Unlock()
 
+				if it.alt != nil {
+					it.prefix = it.alt.Prefix()
+					it.alt = nil
+				}
+				// the term table, the solver's definitions and the query cache of a worker only grow:
+				// start afresh from time to time (paths are executed from the harness start anyway)
+				if w.i.ctx.NumTerms() > 1500000 || len(w.i.qcache) > 2000000 {
+					st := w.i.solver.St
+					mu.Lock()
+					total.Queries += st.Queries
+					total.Sat += st.Sat
+					total.Unsat += st.Unsat
+					total.Unknown += st.Unknown
+					total.Errors += st.Errors
+					total.Seconds += st.Seconds
+					total.Restarts += st.Restarts
+					mu.Unlock()
+					fresh, err := p.NewWorker(opt.SolverBin)
+					if err == nil {
+						fresh.i.Debug, fresh.i.Trace = w.i.Debug, w.i.Trace
+						fresh.i.ForkSites, fresh.i.MergeFails = w.i.ForkSites, w.i.MergeFails
+						w.Close()
+						w = fresh
+						inited = map[*ssa.Package]bool{}
+					}
+				}
 				fn := fns[it.h]
 				hs := stats[it.h]
 				if !inited[fn.Pkg] {
@@ -364,8 +391,8 @@ func (p *Program) Explore(fns []*ssa.Function, cfgs []Config, opt ExploreOpts) (
 				}
 
 				mu.Lock()
-				for _, a := range alts {
-					queue = append(queue, workItem{h: it.h, prefix: a})
+				for k := range alts {
+					queue = append(queue, workItem{h: it.h, alt: &alts[k]})
 				}
 				active--
 				mu.Unlock()
